@@ -80,7 +80,9 @@ class Ctx:
         self.case = None
         self.case_features = {}
         self.no_alias_check = False  # set per call for copy=False style requests
-        self.max_keep = int(os.environ.get("PVM_MAX_KEEP", "400"))
+        self.max_keep = int(os.environ.get("PVM_MAX_KEEP", "20000"))
+        self.per_key_keep = int(os.environ.get("PVM_PER_KEY_KEEP", "3"))
+        self._per_key = Counter()
         self.triage = bool(os.environ.get("PVM_TRIAGE"))
         self.passes = Counter()
 
@@ -109,7 +111,12 @@ class Ctx:
             "detail": short(detail, 600),
             "case": jsonable(self.case),
         }
-        if len(self.violations) < self.max_keep:
+        # keep a few witnesses per distinct mechanism key, so that a frequent known finding
+        # can never crowd an unlisted violation out of the log
+        key = (op, symptom, json.dumps(rec["features"], sort_keys=True))
+        self._per_key[key] += 1
+        if self._per_key[key] <= self.per_key_keep and len(self.violations) < self.max_keep:
+            rec["count_key"] = key[2]
             self.violations.append(rec)
 
     def check(self, cond, op, symptom="WRONG", detail="", **features):
